@@ -4458,6 +4458,7 @@ def _match__inside_list_quantifier(
     q_min = pat.min
     q_max = pat.max
     matches_ins_idx = 0x7fffffffffffffff
+    static_tags_added = False
     count = 0
     tgt_idxs = []  # target index at the start of each successful quantifier pattern match, a sublist pattern can consume any number of elements so greedy backtracking has to step back one whole match and not one element
 
@@ -4492,7 +4493,9 @@ def _match__inside_list_quantifier(
             count += 1
 
         else:
-            if static_tags := pat.static_tags:
+            if (static_tags := pat.static_tags) and not static_tags_added:  # only once, greedy can get here twice (reached min and then reached a finite max)
+                static_tags_added = True
+
                 tagss.append(static_tags)
 
                 if not pat_tag:  # if no pat_tag then inserting matches directly into tagss and need to insert them before the static_tags dict
